@@ -487,7 +487,18 @@ func ruleListUnderLock(c *Ctx, rule string) {
 func rulePersistRestoreAgree(c *Ctx, rule string) {
 	assign := c.MustFn(rule, fipPkg, "assign")
 	cfg := c.MustFn(rule, fipPkg, "(*crdIpam).ConfigurePool")
-	um := c.MustFn(rule, fipPkg, "(*FloatingIP).unmarshalAttr")
+	um := c.Fn(fipPkg, "(*FloatingIP).unmarshalAttr")
+	if um == nil {
+		if v := c.Fn(fipPkg, "(FloatingIP).unmarshalAttr"); v != nil {
+			// restored into a copy: the uid / node read back from the store never reach the table entry
+			c.ob(rule, v, "the persisted attributes are restored into the entry itself", nil, false, "unmarshalAttr has a value receiver: its assignments to NodeName / PodUid land on a copy of the FloatingIP, so after every reload the uid guard of bind and the node used for unassign are empty")
+			um = v
+		} else {
+			um = c.MustFn(rule, fipPkg, "(*FloatingIP).unmarshalAttr")
+		}
+	} else {
+		c.ob(rule, um, "the persisted attributes are restored into the entry itself", nil, true, "unmarshalAttr has a pointer receiver")
+	}
 	if assign == nil || cfg == nil || um == nil {
 		return
 	}
@@ -652,7 +663,7 @@ func ruleReloadAllOrNothing(c *Ctx, rule string) {
 	var stores []ssa.Instruction
 	allInstrs(fn, func(in ssa.Instruction) {
 		if st, ok := in.(*ssa.Store); ok {
-			if p, ok := st.Addr.(*ssa.Parameter); ok && p.Name() == fn.Params[1].Name() {
+			if p, ok := st.Addr.(*ssa.Parameter); ok && p.Name() == pAt(fn, 1).Name() {
 				stores = append(stores, st)
 			}
 		}
@@ -973,7 +984,7 @@ func ruleAllocateRoutable(c *Ctx, rule string) {
 		for _, e := range has {
 			iff := e.from.Instrs[len(e.from.Instrs)-1].(*ssa.If)
 			call := iff.Cond.(*ssa.Call)
-			if dependsOn(call.Call.Args[1], func(v ssa.Value) bool { return sameParam(v, fn.Params[2]) }) {
+			if dependsOn(call.Call.Args[1], func(v ssa.Value) bool { return sameParam(v, pAt(fn, 2)) }) {
 				okArg = true
 			}
 		}
@@ -988,10 +999,10 @@ func ruleRekeyGuards(c *Ctx, rule string) {
 		return
 	}
 	keyEq := guardEdges(fn, predEq(func(v ssa.Value) bool { return isFieldLoadNamed(v, "Key") },
-		func(v ssa.Value) bool { return sameParam(v, fn.Params[1]) }))
+		func(v ssa.Value) bool { return sameParam(v, pAt(fn, 1)) }))
 	routable := guardEdges(fn, predCall("sets.String).Has", func(call *ssa.Call) bool {
 		return pathEndsWith(call.Call.Args[0], "pool", "nodeSubnets") &&
-			dependsOn(call.Call.Args[1], func(v ssa.Value) bool { return sameParam(v, fn.Params[3]) })
+			dependsOn(call.Call.Args[1], func(v ssa.Value) bool { return sameParam(v, pAt(fn, 3)) })
 	}))
 	n := 0
 	allInstrs(fn, func(in ssa.Instruction) {
@@ -1020,7 +1031,7 @@ func ruleRekeyGuards(c *Ctx, rule string) {
 		cw, _ := callOf(arg)
 		ok := cw != nil && nameMatch(calleeName(cw), "(*FloatingIP).CloneWith") &&
 			dependsOn(cw.Call.Args[0], func(v ssa.Value) bool { return mapFieldOf(v) == "allocatedFIPs" })
-		c.ob(rule, fn, "store update is a clone of the candidate with the new key", u, ok && sameParam(cw.Call.Args[1], fn.Params[2]), "updateFloatingIP(candidate.CloneWith(newK, ..))")
+		c.ob(rule, fn, "store update is a clone of the candidate with the new key", u, ok && sameParam(cw.Call.Args[1], pAt(fn, 2)), "updateFloatingIP(candidate.CloneWith(newK, ..))")
 	}
 }
 
@@ -1073,7 +1084,7 @@ func ruleIPInfoFromPool(c *Ctx, rule string) {
 			return
 		}
 		root, p := fieldPath(st.Val)
-		isParam := sameParam(root, fn.Params[1])
+		isParam := sameParam(root, pAt(fn, 1))
 		switch f {
 		case "IP":
 			if _, isAddr := st.Val.Type().Underlying().(*types.Pointer); isAddr {
@@ -1213,7 +1224,7 @@ func ruleUpdateAttrAlwaysWrites(c *Ctx, rule string) {
 		okA := cw != nil && nameMatch(calleeName(cw), "(*FloatingIP).CloneWith")
 		if okA {
 			a := cw.Call.Args[2]
-			okA = dependsOn(a, func(x ssa.Value) bool { return sameParam(x, fn.Params[3]) }) || unspillAddrOfParam(a, fn.Params[3])
+			okA = dependsOn(a, func(x ssa.Value) bool { return sameParam(x, pAt(fn, 3)) }) || unspillAddrOfParam(a, pAt(fn, 3))
 		}
 		c.ob(rule, fn, "the stored attributes are the caller's attr", u, okA, "updateFloatingIP(v.CloneWith(v.Key, &attr, ..)) with the attr parameter")
 	}
